@@ -141,7 +141,8 @@ func genDefect(t *rapid.T) defect {
 			r.Add(q, noop, methods...)
 		}}
 	case 6:
-		total := rapid.IntRange(63, 80).Draw(t, "handlers")
+		// (far beyond the limit as well: counts that no longer fit the int8 the cursor is kept in)
+		total := rapid.OneOf(rapid.IntRange(63, 80), rapid.IntRange(120, 140), rapid.IntRange(250, 330)).Draw(t, "handlers")
 		g := rapid.IntRange(0, total).Draw(t, "groupMw")
 		v := rapid.IntRange(0, total-g).Draw(t, "variadicMw")
 		u := total - g - v
